@@ -296,6 +296,7 @@ impl Check for C16 {
         }
         let n_cases = cases.len();
         ctx.rule = format!("complete matrix over {n} representative values of the 8 kinds (two per data kind, one of them empty/zero/false; thorough: 25 values incl. negative and maximal ints, multi-byte and digit strings, nested lists, containers holding functions, anonymous, bound and type functions): 15 binary operators + `..` x {n}x{n} operands (two spellings), 5 op-assign operators x 4 target forms x {n}x{n}, {c} typed contexts x {n} values, ->type() x {n}; every cell is a distinct (operator, operands, form) tuple and non-trivial", n = nv, c = CONTEXTS.len());
+        ctx.rule.push_str("; every cell followed by a third operand that prints when it is reached (3 continuations and a list), every value and the keyword literals written directly in 5 slot shapes; a kind error names the kinds");
         ctx.extra.insert(
             "bounds".into(),
             json!({"binary_operators": 15, "kinds": 8, "values": nv, "op_assign_operators": 5, "op_assign_forms": 4,
